@@ -20,6 +20,7 @@ import (
 	"os"
 	"path/filepath"
 	"regexp"
+	"runtime/debug"
 	"sort"
 	"strings"
 
@@ -79,6 +80,10 @@ func compileReal(src string, c config) (res compiled) {
 	defer func() {
 		if e := recover(); e != nil {
 			res = compiled{err: "panic: " + clip(fmt.Sprint(e), 200)}
+			// where: the innermost compiler/circuits builder on the stack
+			if m := reBuilderFrame.FindStringSubmatch(string(debug.Stack())); m != nil {
+				res.err += " [in " + m[1] + "]"
+			}
 		}
 	}()
 	circ, _, err := compiler.New(c.params()).Compile(src, nil)
@@ -266,6 +271,7 @@ type progCase struct {
 	usesMult bool
 }
 
+var reBuilderFrame = regexp.MustCompile(`compiler/circuits\.(New[A-Za-z]+)\(`)
 var reDivOp = regexp.MustCompile(`[/%]`)
 var reComment = regexp.MustCompile(`(?m)//.*$`)
 
@@ -447,8 +453,16 @@ func runProgram(o *hxlib.Out, r *hxlib.Rng, idx int, pc progCase, lim limits, pa
 		// (the claim is about the real compiler), but cheap programs only
 		res[i] = compileReal(pc.src, cfgs[i])
 		if res[i].circ == nil {
-			o.Fail("c09-compile-outcome-differs", map[string]any{"case": idx, "prog": pc.name, "src": pc.src,
-				"config_a": cfgs[0].name, "outcome_a": "ok", "config_b": cfgs[i].name, "outcome_b": res[i].err})
+			d := map[string]any{"case": idx, "prog": pc.name, "src": pc.src,
+				"config_a": cfgs[0].name, "outcome_a": "ok", "config_b": cfgs[i].name, "outcome_b": res[i].err,
+				"target_b": cfgs[i].tgt.String(), "uses_divmod": fmt.Sprint(pc.usesDiv), "cause": "unknown"}
+			// known: the GMW Goldschmidt divider indexes out of range when its
+			// operands differ in width (it does not ZeroPad them)
+			if cfgs[i].tgt == utils.TargetGMW && pc.usesDiv && strings.Contains(res[i].err, "index out of range") &&
+				strings.Contains(res[i].err, "[in NewUDividerGoldschmidtFast]") {
+				d["cause"] = "gmw-divider-operand-width-panic"
+			}
+			o.Fail("c09-compile-outcome-differs", d)
 			continue
 		}
 		lines[i] = hxlib.CircLine(res[i].circ)
@@ -538,6 +552,15 @@ func runProgram(o *hxlib.Out, r *hxlib.Rng, idx int, pc progCase, lim limits, pa
 		o.Count("config_pairs_simulated")
 		if exhaustive {
 			o.Count("config_pairs_exhaustive")
+		}
+	}
+	if pc.name == "fixed:sdiv-const-narrow" {
+		// the circuits of the Lean negation witness Mpc.C09_target_equivalence_fails
+		y, g := res[1].circ, res[len(cfgs)-1].circ
+		if y != nil && g != nil {
+			x := []bool{true, false, false, false}
+			o.Meta["negation_witness"] = map[string]any{"src": pc.src, "yao": hxlib.CircLine(y), "gmw": hxlib.CircLine(g),
+				"x": hxlib.BitsString(x), "out_yao": realCompute(y, x), "out_gmw": realCompute(g, x)}
 		}
 	}
 	if pc.name == "fixed:udiv7" {
